@@ -64,7 +64,7 @@ def one(rng: random.Random, k: int) -> dict:
                                  cls=cls if failed else "", args=[str(a) for a in args] if failed else []))
         notes = list(getattr(ex, "__notes__", []) or [])
         f0 = fails[0] if fails else None
-        attributed = bool(f0) and any(f0["f"] in n and all(f"{p}=" in n and repr(from_json(v)) in n
+        attributed = bool(f0) and any(f0["f"] in n and all(f"{p}=" in n and (v["f"] == "#arr" or ("None" if v["f"] == "#none" else repr(from_json(v))) in n)
                                                             for p, v in f0["kwargs"].items()) for n in notes)
 
         def repro(s):
